@@ -9,6 +9,7 @@
 -/
 import XlVerif.Lemmas.C10
 import XlVerif.Lemmas.C06
+import XlVerif.Props.C06
 namespace XlVerif.Props.C10
 open XlVerif XlVerif.Model.Evaluator XlVerif.Model.Value XlVerif.Model.C10 XlVerif.Lemmas.C10
 open XlVerif.Spec.C10 (Truth truth truthV)
@@ -557,6 +558,53 @@ theorem iff_trace {m : MState} (hL : Lawful S m) (hsem : sem.truth = truthOf) (f
   exact ⟨fun ht => key.1 ht (eval_extends hL fuel t c1 hA1 hW1).1,
          fun ht => key.2.1 ht (eval_extends hL fuel e c1 hA1 hW1).1⟩
 end embed
+
+/-! ### one evaluator, a SEQUENCE of truth assignments: an earlier failed evaluation has no effect -/
+section history
+open XlVerif.Model.C06 (EvState evaluateOn)
+
+/-- `evaluate` on a cell holding an IF / AND / OR / NOT formula leaves `_evaluating` as it found it on every
+    path: value, error value, failure of the selected branch, cycle report -/
+theorem evalEntry_restores {σ : Type} (S : Store σ) (sem : Sem) (fuel : Nat) (c : Ctx σ) (a : Addr) (len : Nat)
+    (f : Lx) : (evalEntry S sem fuel c a len f).1.evaluating = c.evaluating := by
+  simp only [evalEntry]
+  split
+  · rfl
+  · generalize evalLx S sem (evalCell S sem fuel) f _ = p
+    obtain ⟨c2, r⟩ := p
+    cases r with
+    | val v => rfl
+    | exc k n => cases k <;> rfl
+
+/-- whatever was evaluated before on the same evaluator and however it ended (a poisoned branch that was
+    selected: unknown function, circular reference, raising cell), and whatever inputs were set in between:
+    nothing stays in progress -/
+theorem steps_evaluating (sem : Sem) (fuel : Nat) (steps : List HStep) :
+    ∀ e : EvState, (steps.foldl (stepOn sem fuel) e).evaluating = e.evaluating := by
+  induction steps with
+  | nil => intro e; rfl
+  | cons st rest ih =>
+    intro e
+    simp only [List.foldl_cons]
+    rw [ih]
+    cases st with
+    | cell a => exact XlVerif.Props.C06.evaluating_restored sem fuel e a
+    | entry a len f =>
+      simp only [stepOn, evaluateLxOn]
+      exact evalEntry_restores mutStore sem fuel _ a len f
+    | set a v => rfl
+
+/-- **if_lazy over histories.** After ANY history on one evaluator that started new, the evaluation of a cell
+    holding `f` is the evaluation a NEW evaluator would perform on the current inputs (`evaluateLx` on the
+    current store): result and trace.  Together with `if_selects` / `if_lazy`: once the inputs select the healthy
+    branch, the earlier failure of the poisoned branch has no effect. -/
+theorem reused_eq_fresh (sem : Sem) (fuel : Nat) (m : MState) (steps : List HStep) (a : Addr) (len : Nat) (f : Lx) :
+    let e := steps.foldl (stepOn sem fuel) { st := m }
+    (evaluateLxOn sem fuel e a len f).2 = evaluateLx sem fuel e.st a len f := by
+  intro e
+  have h : e.evaluating = [] := steps_evaluating sem fuel steps { st := m }
+  simp only [evaluateLxOn, evaluateLx, h]
+end history
 
 /-! ### the hypotheses are satisfiable; regression examples (D17, D25, D1001) on the model -/
 section examples
